@@ -71,3 +71,12 @@ func det(kv ...any) map[string]any {
 	}
 	return m
 }
+
+func envInt(name string, def int) int {
+	if v := os.Getenv(name); v != "" {
+		if n, err := strconv.Atoi(v); err == nil {
+			return n
+		}
+	}
+	return def
+}
